@@ -283,6 +283,7 @@ func c10Gen(r *vh.Rand, tier string, n int, emitOut func(any)) {
 	})
 	big := 0
 	f26Done := false
+	zeroLongDone := false
 	for _, ci := range order {
 		if budget <= 0 {
 			break
@@ -368,6 +369,14 @@ func c10Gen(r *vh.Rand, tier string, n int, emitOut func(any)) {
 			}
 			emit(c10Input{Kind: "font", Font: info.rel, Gids: sub, AdvGids: advs,
 				Patches: []c10Patch{{Table: "hhea", Off: 34, Bytes: []byte{byte(k >> 8), byte(k)}}}})
+		}
+		// malformed hhea: no long metric at all (Hmtx.Advance returns 0), and more long metrics than glyphs
+		// (the side bearings count is clamped) - advances only
+		if !zeroLongDone && len(f.hhea) >= 36 {
+			zeroLongDone = true
+			emit(c10Input{Kind: "font", Font: info.rel, AdvGids: advs, Patches: []c10Patch{{Table: "hhea", Off: 34, Bytes: []byte{0, 0}}}})
+			k := f.nGlyphs + 3
+			emit(c10Input{Kind: "font", Font: info.rel, AdvGids: advs, Patches: []c10Patch{{Table: "hhea", Off: 34, Bytes: []byte{byte(k >> 8), byte(k)}}}})
 		}
 		// F26 (known finding): one advanceWidth >= 32768; the library reads it as a negative int16
 		if !f26Done && f.nLong >= 2 && len(f.hmtx) >= 8 {
